@@ -67,6 +67,8 @@ class FPerson(Symbol):
     known_by: Set[FPerson] = field(default_factory=set)
     best_friend_of: List[FPerson] = field(default_factory=list)
     mentor_of: List[FPerson] = field(default_factory=list)
+    teaches: List[FPerson] = field(default_factory=list)
+    taught_by: List[FPerson] = field(default_factory=list)
 
 
 @dataclass
@@ -103,6 +105,22 @@ class Knows(PropertyDescriptor, HasInverseProperty):
 
 
 @dataclass
+class Teaches(Knows):
+    """A sub-property that declares its own, more specific inverse."""
+
+    @classmethod
+    def get_inverse(cls) -> Type[TaughtBy]:
+        return TaughtBy
+
+
+@dataclass
+class TaughtBy(KnownBy):
+    @classmethod
+    def get_inverse(cls) -> Type[Teaches]:
+        return Teaches
+
+
+@dataclass
 class FriendOf(Knows):
     """An intermediate level of the property hierarchy for which no class has a field."""
 
@@ -129,6 +147,8 @@ FPerson.knows = Knows(FPerson, "knows")
 FPerson.known_by = KnownBy(FPerson, "known_by")
 FPerson.best_friend_of = BestFriendOf(FPerson, "best_friend_of")
 FPerson.mentor_of = MentorOf(FPerson, "mentor_of")
+FPerson.teaches = Teaches(FPerson, "teaches")
+FPerson.taught_by = TaughtBy(FPerson, "taught_by")
 
 @dataclass(eq=False)
 class GRegion(Symbol):
